@@ -8,7 +8,11 @@ package fasthttp
 // connection and tells it the ServerName, and bytes written inside TLS are
 // recorded apart from bytes written to the raw connection.
 
-import "crypto/tls"
+import (
+	"crypto/tls"
+	"net"
+	"time"
+)
 
 func c21Serve(nw *vcNet) {
 	nw.onDial = func(k int, addr string) *vcConn {
@@ -79,6 +83,10 @@ func vhC21ClientSchemes() {
 	nw := &vcNet{}
 	c21Serve(nw)
 	cl := &Client{Dial: nw.Dial}
+	if vBool("dialThroughDialTimeout") {
+		// the same scripted network handed over through the DialTimeout option
+		cl = &Client{DialTimeout: func(addr string, _ time.Duration) (net.Conn, error) { return nw.Dial(addr) }}
+	}
 	if vBool("sharedTLSConfig") {
 		// one TLS configuration (without a ServerName) for every host of the Client
 		cl.TLSConfig = &tls.Config{MinVersion: tls.VersionTLS12}
@@ -135,6 +143,10 @@ func vhC21HostClient() {
 		return
 	}
 	hc := &HostClient{Addr: addr, IsTLS: isTLS, Dial: nw.Dial}
+	if vBool("dialThroughDialTimeout") {
+		hc.Dial = nil
+		hc.DialTimeout = func(addr string, _ time.Duration) (net.Conn, error) { return nw.Dial(addr) }
+	}
 	scheme := c21Scheme("scheme")
 	var req Request
 	var resp Response
